@@ -256,6 +256,19 @@ def oracle_constructed_feasible(world, out, pid=ID):
     if cname in ("kFlowDecomp", "MinFlowDecomp", "kFlowDecompCycles", "MinFlowDecompCycles") and args.get("solution_weights_superset") is None and args.get("elements_to_ignore"):
         return vs
     if not out["solved"]:
+        # the constraints are to blame only if the same world without them is solved (MinFlowDecomp, for one, gives up on
+        # a graph whose zero-flow edges push its width bound to the number of edges - with or without constraints; that is
+        # C03's matter, not this property's)
+        w0 = copy.deepcopy(world)
+        for k_ in ("subpath_constraints", "subset_constraints", "subpath_constraints_coverage", "subset_constraints_coverage",
+                   "subpath_constraints_coverage_length"):
+            w0["args"].pop(k_, None)
+        try:
+            out0, _, _ = mr.run(w0, {"latency": "instant", "reply": "canonical", "faults": []}, seed=1)
+        except W.Discard:
+            return vs
+        if not out0.get("solved"):
+            return vs
         vs.append(Violation(pid, pid + ".satisfiable_constraints_made_infeasible", cname + ("/node" if mr._node_mode(world) else ""),
                             {"generating_routes": world["graph"].get("routes"), "weights": world["graph"].get("weights"), "k": args.get("k")}))
     return vs
